@@ -462,6 +462,157 @@ class CnmBody:
         return '\n'.join(out)
 
 
+DSN_TEMPLATE = """
+bitmap = test_oms.spectrum_bitmap
+freq_index = bitmap.freq_index
+freq_index_min = bitmap.freq_index_min
+freq_index_max = bitmap.freq_index_max
+freq_availability = bitmap.bitmap
+if requested_n not in freq_index:
+    return 0
+center_i = bitmap.geti(requested_n)
+i = per_channel_m
+while H_cond:
+    i += per_channel_m
+return i - per_channel_m
+"""
+
+SEL_TEMPLATE = """
+freq_index = test_oms.spectrum_bitmap.freq_index
+freq_index_min = test_oms.spectrum_bitmap.freq_index_min
+freq_index_max = test_oms.spectrum_bitmap.freq_index_max
+freq_availability = test_oms.spectrum_bitmap.bitmap
+if requested_n is None:
+    candidates = [(H_centre, freq_index[i], freq_index[i] + 2 * requested_m - 1)
+                  for i in range(len(freq_availability))
+                  if H_cond]
+    candidate = select_candidate(candidates, policy=policy)
+else:
+    i = test_oms.spectrum_bitmap.geti(requested_n)
+    if (freq_availability[i - requested_m:i + requested_m] == [BitmapValue.FREE] * (2 * requested_m)
+            and freq_index[i - requested_m] >= freq_index_min
+            and freq_index[i + requested_m - 1] <= freq_index_max):
+        candidate = (requested_n, requested_n - requested_m, requested_n + requested_m - 1)
+    else:
+        candidate = (None, None, None)
+return candidate
+"""
+
+AGG_TEMPLATE = """
+spectrum = oms_list[path_oms[0]].spectrum_bitmap
+bitmap = list(spectrum.bitmap)
+for oms in path_oms[1:]:
+    bitmap = bitmap_sum(oms_list[oms].spectrum_bitmap.bitmap, bitmap)
+params = {'oms_id': 0, 'el_id_list': 0, 'el_list': []}
+freq_min = nvalue_to_frequency(spectrum.n_min)
+freq_max = nvalue_to_frequency(spectrum.n_max)
+aggregate_oms = OMS(**params)
+aggregate_oms.update_spectrum(freq_min, freq_max, grid=DEFAULT_GRID, guardband=spectrum.guardband,
+                              existing_spectrum=bitmap)
+return aggregate_oms
+"""
+
+IDX_NAMES = {'freq_index_min': 'fi_min b', 'freq_index_max': 'fi_max b'}
+
+
+class TrIdx(Tr):
+    """expressions over the local aliases of determine_slot_numbers / spectrum_selection: freq_index[e] is the (partial)
+    lookup idx_at, `freq_availability[a:b] == [BitmapValue.FREE] * k` is slice_all_free"""
+
+    def __init__(self, known, defaults):
+        super().__init__(known, defaults, names=dict(NAMES, **IDX_NAMES))
+
+    def e(self, n):
+        if isinstance(n, ast.Subscript) and isinstance(n.value, ast.Name) and n.value.id == 'freq_index' \
+                and not isinstance(n.slice, ast.Slice):
+            self.fresh += 1
+            v = f'm{self.fresh}'
+            self.pre.append((v, f'idx_at b {self.e(n.slice)}'))
+            return v
+        return super().e(n)
+
+    def b(self, n):
+        if isinstance(n, ast.Compare) and len(n.ops) == 1 and isinstance(n.ops[0], ast.Eq):
+            bnd = {}
+            if unify(ast.parse('freq_availability[H_lo:H_hi] == [BitmapValue.FREE] * H_k').body[0].value, n, bnd):
+                return f'slice_all_free (cells b) {self.e(bnd["H_lo"])} {self.e(bnd["H_hi"])} {self.e(bnd["H_k"])}'
+        return super().b(n)
+
+    def chain(self, test):
+        """`c1 and c2 and ...` with Python's short-circuit and partial lookups -> a term of type res bool"""
+        conj = test.values if isinstance(test, ast.BoolOp) and isinstance(test.op, ast.And) else [test]
+        parts = []
+        for c in conj:
+            cond = self.b(c)
+            parts.append((self.pre, cond))
+            self.pre = []
+        term = None
+        for pre, cond in reversed(parts):
+            t = f'Ok {cond}' if term is None else f'if {cond} then\n  {term} else Ok false'
+            for v, rhs in reversed(pre):
+                t = f'let* {v} := {rhs} in\n  {t}'
+            term = t
+        return term
+
+
+def gen_selection(trees, known, defaults):
+    """g_dsn_cond (loop condition of determine_slot_numbers), g_cand_ok / g_cand_centre (comprehension of
+    spectrum_selection); aggregate_oms_bitmap is template-matched only"""
+    tree = trees['gnpy/topology/spectrum_assignment.py']
+    out = []
+    b = match_template(DSN_TEMPLATE, strip_doc(find(tree, 'determine_slot_numbers').body), 'determine_slot_numbers')
+    out.append('(* gnpy/topology/spectrum_assignment.py: determine_slot_numbers, condition of the growing loop *)')
+    out.append('Definition g_dsn_cond (b : bitmap) (center_i i required_m : Z) : res bool :=\n  '
+               + TrIdx(known, defaults).chain(b['H_cond']) + '.\n')
+    b = match_template(SEL_TEMPLATE, strip_doc(find(tree, 'spectrum_selection').body), 'spectrum_selection')
+    out.append('(* gnpy/topology/spectrum_assignment.py: spectrum_selection (free N), condition and centre of a candidate *)')
+    out.append('Definition g_cand_ok (b : bitmap) (requested_m i : Z) : res bool :=\n  '
+               + TrIdx(known, defaults).chain(b['H_cond']) + '.\n')
+    tr = TrIdx(known, defaults)
+    centre = tr.e(b['H_centre'])
+    out.append('Definition g_cand_centre (b : bitmap) (requested_m i : Z) : res Z :=\n  ' + tr.wrap(f'Ok {centre}') + '.\n')
+    match_template(AGG_TEMPLATE, strip_doc(find(tree, 'aggregate_oms_bitmap').body), 'aggregate_oms_bitmap')
+    out.append('(* gnpy/topology/spectrum_assignment.py: aggregate_oms_bitmap matches its template (first bitmap copied, '
+               'bitmap_sum over the others, same n_min / n_max / guard band) *)\n')
+    return out
+
+
+# helpers whose whole body must stay the expected one (ordering of the requested slots; the model's order_slots /
+# restore_order are their Gallina counterparts, tied by the correspondence run)
+FROZEN = [
+    ('gnpy/core/utils.py', 'replace_none', """
+for key, val in dictionary.items():
+    if val is None:
+        dictionary[key] = float('inf')
+    if val == float('inf'):
+        dictionary[key] = None
+return dictionary
+"""),
+    ('gnpy/core/utils.py', 'order_slots', """
+slots_list = deepcopy(slots)
+slots_list = [replace_none(e) for e in slots_list]
+for i, e in enumerate(slots_list):
+    e['i'] = i
+slots_list = sorted(slots_list, key=lambda x: (-x['M'], x['N']) if x['M'] != float('inf') else (x['M'], x['N']))
+slots_list = [replace_none(e) for e in slots_list]
+return [e['N'] for e in slots_list], [e['M'] for e in slots_list], [e['i'] for e in slots_list]
+"""),
+    ('gnpy/core/utils.py', 'restore_order', """
+return [elements[i[0]] for i in sorted(enumerate(order), key=lambda x:x[1]) if elements[i[0]] is not None]
+"""),
+]
+
+
+def gen_frozen(repo, trees):
+    out = []
+    for path, name, tmpl in FROZEN:
+        if path not in trees:
+            trees[path] = ast.parse(open(os.path.join(repo, path)).read())
+        match_template(tmpl, strip_doc(find(trees[path], name).body), name)
+        out.append(f'(* {path}: {name} matches its template *)')
+    return out + ['']
+
+
 def gen_control_flow(trees, known, defaults):
     """g_cnm_step and g_pth_assign_one: the decisions of compute_n_m / pth_assign_spectrum; the bookkeeping around them
     (lists, ordering, the commit loops) is matched against a template, not translated"""
@@ -549,6 +700,8 @@ def generate(repo=None):
         out.append(f'(* {path}: {qual} *)')
         out.append(f'Definition g_{name} {binders}{extra} : {rty} :=\n  {body}.\n')
         known.add(name)
+    out += gen_selection(trees, known, defaults)
+    out += gen_frozen(repo, trees)
     out += gen_control_flow(trees, known, defaults)
     return '\n'.join(out)
 
